@@ -4,6 +4,10 @@ CONSTANTS
   PoolOrder <- MC_Pool9b
   MaxLen = 3
   MaxNames = 9
+  Mode = "grid"
+  MaxOps = 30
+  MaxMut = 0
+  MaxObs = 0
   MaxRagged = 3
   MaxRaggedInt = 2
   MaxExtends = 0
